@@ -675,6 +675,88 @@ impl ClusterState {
     }
 }
 
+/// Verification hook H-TABLETS (see `crate::verif::tablets`). Additive; compiled only with
+/// `--cfg scylla_verif`. Synchronous twins of [`ClusterState::new`] / [`ClusterState::new_updated`]
+/// (same private steps in the same order; only the `spawn_blocking` wrapper around
+/// `ReplicaLocator::new` is left out, so no runtime is needed), and a pass-through to the
+/// module-private `update_tablets`.
+#[cfg(scylla_verif)]
+impl ClusterState {
+    pub(crate) fn verif_new_sync(
+        metadata: Metadata,
+        node_config: &NodeConfig,
+        host_filter: Option<&dyn HostFilter>,
+    ) -> Self {
+        let (new_known_nodes, ring) =
+            Self::calculate_new_topology(metadata.peers, &HashMap::new(), node_config, host_filter);
+        let keyspaces = Self::resolve_metadata_keyspaces(metadata.keyspaces, &HashMap::new());
+        let mut tablets = TabletsInfo::new();
+        Self::perform_tablets_maintenance(
+            &mut tablets,
+            &HashMap::new(),
+            &new_known_nodes,
+            &keyspaces,
+        );
+        let locator = Self::verif_locator_sync(&keyspaces, ring, tablets);
+        ClusterState {
+            all_nodes: new_known_nodes.values().cloned().collect(),
+            known_nodes: new_known_nodes,
+            keyspaces,
+            locator,
+            cluster_name: metadata.cluster_name,
+        }
+    }
+
+    pub(crate) fn verif_new_updated_sync(
+        &self,
+        metadata: Metadata,
+        node_config: &NodeConfig,
+        host_filter: Option<&dyn HostFilter>,
+    ) -> Self {
+        let keyspaces = Self::resolve_metadata_keyspaces(metadata.keyspaces, &self.keyspaces);
+        let (new_known_nodes, ring) = Self::calculate_new_topology(
+            metadata.peers,
+            &self.known_nodes,
+            node_config,
+            host_filter,
+        );
+        let mut tablets = self.locator.tablets.clone();
+        Self::perform_tablets_maintenance(
+            &mut tablets,
+            &self.known_nodes,
+            &new_known_nodes,
+            &keyspaces,
+        );
+        let locator = Self::verif_locator_sync(&keyspaces, ring, tablets);
+        ClusterState {
+            all_nodes: new_known_nodes.values().cloned().collect(),
+            known_nodes: new_known_nodes,
+            keyspaces,
+            locator,
+            cluster_name: metadata.cluster_name,
+        }
+    }
+
+    fn verif_locator_sync(
+        keyspaces: &HashMap<String, Keyspace>,
+        ring: Ring,
+        tablets: TabletsInfo,
+    ) -> ReplicaLocator {
+        let keyspace_strategies = keyspaces
+            .values()
+            .filter(|ks| !ks.tablet_based)
+            .map(|ks| &ks.strategy);
+        ReplicaLocator::new(ring.into_iter(), keyspace_strategies, tablets)
+    }
+
+    pub(crate) fn verif_update_tablets(
+        &mut self,
+        raw_tablets: Vec<(TableSpec<'static>, RawTablet)>,
+    ) {
+        self.update_tablets(raw_tablets)
+    }
+}
+
 /// Additional API for interop-based code.
 #[cfg(all(scylla_unstable, feature = "unstable-csharp-rs"))]
 impl ClusterState {
